@@ -297,6 +297,7 @@ def run(spec, ctx):
     if spec["kind"] == "threads":
         # FRESH pointer objects (nothing has been asked of them yet) shared by 8 threads that print, hash, compare, take
         # parents of, join onto and resolve them at once (yields injected inside pointer.py)
+        import jsonpath
         from jsonpath import JSONPointer
 
         from rt.threads import stress
@@ -316,9 +317,25 @@ def run(spec, ctx):
                         cur = cur[t]
                     cases.append((o.value, tokens, text, doc, cur))
             errors = []
+            # texts nobody has parsed before in this process (a token that is new every round), parsed by all threads at once
+            fresh = []
+            for k_ in range(3):
+                ftoks = [r.choice(ALPHABET) for _ in range(r.choice([3, 40, 200]))] + ["round-%d-%d-%s" % (_round, k_, r.random())]
+                fresh.append((rp.encode(ftoks), ftoks))
 
             def worker(wid, rr):
                 try:
+                    for ftext, ftoks in fresh:
+                        how_ = rr.choice(["JSONPointer", "JSONPointer", "patch", "relative"])
+                        if how_ == "JSONPointer":
+                            q = JSONPointer(ftext, unicode_escape=False)
+                        elif how_ == "patch":
+                            q = jsonpath.JSONPatch(unicode_escape=False).test(ftext, 1).ops[0].path
+                        else:
+                            q = JSONPointer("/zz", unicode_escape=False).to("1" + ftext, unicode_escape=False) if ftext == ftext.strip() else JSONPointer(ftext, unicode_escape=False)
+                        if str(q) != ftext or [str(x) for x in q.parts] != ftoks or q != JSONPointer.from_parts(list(ftoks), unicode_escape=False):
+                            errors.append({"operation": "a text parsed by several threads at once (%s)" % how_, "tokens_expected": len(ftoks), "tokens_got": len(q.parts), "printed_equal": str(q) == ftext})
+                            return
                     for p, tokens, text, doc, leaf in rr.sample(cases, len(cases)):
                         what = rr.choice(["str", "hash-eq", "parent", "join", "resolve", "relative"])
                         twin = JSONPointer.from_parts(list(tokens))
